@@ -3,7 +3,7 @@ deltas (`when`) for enum / boolean cells whose cases differ between the two side
 from . import domain as D
 from .domain import Lin
 from .state import State
-from .values import BOT, Arr, Bot, BoxU, Delta, Enum, Fn, FnPtr, Iter, Opaque, Ref, Scalar, Seq, Struct, Val
+from .values import BOT, Arr, Bot, BoxU, Delta, Enum, Fn, FnPtr, Iter, Opaque, Ref, Scalar, Seq, Struct, Val, val_syms
 
 
 INTERP = None  # set by the interpreter: gives the joiner read access through references
@@ -339,9 +339,40 @@ class Joiner:
         for e, ea, eb, cxa, cxb in self.enum_sites:
             when = {}
             for k in e.variants:
-                da = self._delta(A, _merge_deltas(cxa + ((ea.when[k],) if k in ea.when else ())), self.sa) if k in ea.variants else None
-                db = self._delta(B, _merge_deltas(cxb + ((eb.when[k],) if k in eb.when else ())), self.sb) if k in eb.variants else None
+                pa_, pb_ = set(), set()
+                if k in ea.variants:
+                    for x_ in ea.variants[k]:
+                        val_syms(x_, pa_)
+                    pa_ = {self.sa.get(s_, s_) for s_ in pa_} | pa_
+                if k in eb.variants:
+                    for x_ in eb.variants[k]:
+                        val_syms(x_, pb_)
+                    pb_ = {self.sb.get(s_, s_) for s_ in pb_} | pb_
+                da = self._delta(A, _merge_deltas(cxa + ((ea.when[k],) if k in ea.when else ())), self.sa, prefer=pa_) if k in ea.variants else None
+                db = self._delta(B, _merge_deltas(cxb + ((eb.when[k],) if k in eb.when else ())), self.sb, prefer=pb_) if k in eb.variants else None
                 d = da if db is None else (db if da is None else self._join_delta(da, db))
+                if da is not None and db is not None and d is not None:
+                    # a fact about the payload that one side states and the other side (under its own knowledge
+                    # about this variant) entails holds for the variant too (e.g. `idx < len` vs `idx == 0, len >= 1`)
+                    pj = pa_ | pb_
+                    extra_f = []
+                    for side_facts, X, xw, sx, cx in ((db.facts, A, ea.when.get(k), self.sa, cxa), (da.facts, B, eb.when.get(k), self.sb, cxb)):
+                        cand = [f_ for f_ in side_facts if f_ not in d.facts and any(s_ in pj for s_ in f_.t)][:6]
+                        if not cand:
+                            continue
+                        Xc = X.copy()
+                        dx = _merge_deltas(tuple(cx) + ((xw,) if xw is not None else ()))
+                        if dx is not None:
+                            Xc.apply_delta(dx)
+                        inv = {}
+                        for s_src, s_phi in sx.items():
+                            inv.setdefault(s_phi, s_src)
+                        for f_ in cand:
+                            fx = f_.rename(inv) if any(s_ in inv for s_ in f_.t) else f_
+                            if not Xc.dead and all(s_ in Xc.iv or not isinstance(s_, tuple) for s_ in fx.t) and Xc.entails(fx):
+                                extra_f.append(f_)
+                    if extra_f:
+                        d = Delta(d.iv, tuple(d.facts) + tuple(f_ for f_ in extra_f if f_ not in d.facts), d.gen, d.ef)
                 if d is not None and (d.iv or d.facts or d.ef):
                     when[k] = d
             e.when = when
@@ -488,11 +519,15 @@ class Joiner:
                 if h is not None and 0 < h[1] <= 8:
                     J.facts.add(fj.addc(-h[1]))
 
-    def _delta(self, X, extra, sx):
-        """What X knows beyond J: tighter intervals (for J-visible symbols) and extra facts."""
-        base = self._delta_cache.get(id(X))
-        if base is None:
-            base = self._delta_cache[id(X)] = self._delta0(X, None, sx)
+    def _delta(self, X, extra, sx, prefer=None):
+        """What X knows beyond J: tighter intervals (for J-visible symbols) and extra facts.
+        prefer: symbols whose facts must survive the cap on the number of facts (the payload of the variant)."""
+        if prefer:
+            base = self._delta0(X, None, sx, prefer=prefer)
+        else:
+            base = self._delta_cache.get(id(X))
+            if base is None:
+                base = self._delta_cache[id(X)] = self._delta0(X, None, sx)
         if extra is None:
             return base
         iv = dict(base.iv)
@@ -531,7 +566,7 @@ class Joiner:
             return self._delta0(X2, None, sx, like=X)
         return self._delta(X, _merge_deltas(tuple(ctx) + ((wx[v],) if v in wx else ())), sx)
 
-    def _delta0(self, X, extra, sx, like=None):
+    def _delta0(self, X, extra, sx, like=None, prefer=None):
         J = self.J
         iv = {}
         side_a = (like if like is not None else X) is self.A
@@ -554,6 +589,8 @@ class Joiner:
                 facts.append(fj)
         if len(iv) > 64:
             iv = dict(list(iv.items())[:64])
+        if prefer and len(facts) > 24:
+            facts.sort(key=lambda f_: 0 if any(s_ in prefer for s_ in f_.t) else 1)
         facts = facts[:24]
         gen = {}
         for s in iv:
